@@ -421,6 +421,8 @@ def to_z3(v, t):
             units = [z3.Unit(to_z3(x, t.args[0])) for x in v.items]
             return units[0] if len(units) == 1 else z3.Concat(*units)
     if k == "set" and isinstance(v, VSet):
+        if v.z is None:      # set() not yet typed by an add(): the empty set of the expected element type
+            return z3.K(sort_of(t.args[0]), z3.BoolVal(False))
         return v.z
     if k == "tuple" and isinstance(v, VTuple):
         s = sort_of(t)
